@@ -66,15 +66,25 @@ def pointee(t):
 
 def interface_of(records, impl):
     """the interface class a client sees for a node of implementation class `impl`: the Interface typedef the implementation
-    inherits (impl::Node<T>), else the nearest base outside the implementation namespaces, else the class itself"""
-    chain = bases_of(records, impl)
-    for n in reversed(chain):
-        if records.get(n, {}).get('interface'):
-            return records[n]['interface']
-    if '::impl::' not in impl:
-        return impl
-    outside = [n for n in chain if '::impl::' not in n and n in records and records[n]['polymorphic']]
-    return outside[-1] if outside else impl
+    inherits (impl::Node<T>), followed through implementation-side adaptors (impl::Stmt<T>, impl::Expr<T>, ...) until a class
+    outside the implementation namespaces is reached; else the nearest polymorphic base outside them; else the class itself"""
+    cur = impl
+    for _ in range(8):
+        chain = bases_of(records, cur)
+        t = None
+        for n in reversed(chain):
+            if records.get(n, {}).get('interface') and records[n]['interface'] != cur:
+                t = records[n]['interface']; break
+        if t is None:
+            break
+        cur = t
+        if '::impl::' not in cur:
+            return cur
+    if '::impl::' not in cur:
+        return cur
+    outside = [n for n in bases_of(records, cur) if '::impl::' not in n and n in records and records[n]['polymorphic'] and not n.startswith('ipr::util::')]
+    leafy = [n for n in outside if re.match(r'^ipr::(cxx_form::)?[A-Za-z_]\w*(::\w+)?$', n)]
+    return (leafy or outside or [cur])[-1]
 
 
 def accessors(records, iface):
